@@ -12,6 +12,10 @@
 use crate::spy::TOp;
 use crate::sysrun::*;
 
+/// oracle modes for the rejected prototype patches P2/P3 of /repo (docs/C19.md): off
+const ORACLE_P2: bool = false;
+const ORACLE_P3: bool = false;
+
 const WILD: char = '\u{1}';
 
 /// independent rendering of the template family from the public getters; None = nothing shown
@@ -78,6 +82,9 @@ struct Item {
     cands: Vec<Vec<String>>,
     /// may legitimately have vanished (an intervention happened after it was dropped)
     optional: bool,
+    /// number of this item's lines that were painted in the last painted frame of the MultiProgress
+    /// when that frame was cut at the terminal height (None = all of them)
+    painted: Option<usize>,
 }
 
 pub struct Oracle {
@@ -106,12 +113,33 @@ pub struct Oracle {
     pub vt_broken: bool,
     /// text lines were drawn in a draw in which not even the first bar line fitted the height (D14)
     text_without_bar: bool,
+    /// D14 by cause: the last painted output ended with the cursor in the MIDDLE of a row while the
+    /// frame was taller than the terminal (a draw cut by the height `break` before its last line
+    /// gets no right-edge filler) and nothing has cleared that row since
+    cut_mid_row: bool,
+    /// ... and THIS step wrote at that cursor without clearing the row first
+    cut_damage_now: bool,
+    /// D22 (C04): bottom alignment, a frame with padding rows was painted, a visibly finished member was dropped
+    d22_padded: bool,
+    d22_kept_candidate: bool,
     /// a println/clear/suspend had to erase kept rows + live rows taller than the terminal (D28)
     kept_out_of_reach: bool,
     /// a finished bar was dropped while the frame was taller than the terminal (D17)
     oversized_reap: bool,
     /// newest unwrapped lines per bar (for frames taller than the terminal)
     last_lines: Vec<Vec<String>>,
+    /// static rows in physical order: the printed log rows and the rows of finished bars that had
+    /// scrolled out of the visible screen when a println/clear/suspend went to erase them
+    transcript: Vec<String>,
+    /// rows scrolled off the top of the terminal so far (derived from the expected extents)
+    top: usize,
+    pub frozen_rows: usize,
+    /// Drop(b): the bar is marked after its final draw has been checked
+    pending_drop: Option<(usize, bool)>,
+    /// the last painted frame of the MultiProgress was cut at the terminal height
+    last_cut: bool,
+    /// a dropped bar behind the cut of a frame taller than the terminal was reaped
+    reap_cut: Option<String>,
 }
 
 pub struct Violation {
@@ -149,9 +177,19 @@ impl Oracle {
             clear_then_drop: false,
             vt_broken: false,
             text_without_bar: false,
+            cut_mid_row: false,
+            cut_damage_now: false,
+            d22_padded: false,
+            d22_kept_candidate: false,
             kept_out_of_reach: false,
             oversized_reap: false,
             last_lines: vec![vec![]; nb],
+            transcript: vec![],
+            top: 0,
+            frozen_rows: 0,
+            pending_drop: None,
+            last_cut: false,
+            reap_cut: None,
         };
         for (i, b) in case.bars.iter().enumerate() {
             if matches!(b.target, TInit::Term(_)) {
@@ -160,6 +198,7 @@ impl Oracle {
                     state: ItemState::Live,
                     cands: vec![vec![]],
                     optional: false,
+                    painted: None,
                 });
             }
         }
@@ -245,11 +284,32 @@ impl Oracle {
         if first_line_rows.map_or(false, |r| r > self.h) {
             self.text_without_bar = true;
         }
+        // kept rows that have scrolled off the visible screen cannot be erased any more: they stay
+        // where they are, above whatever is printed next
+        let kept_rows: Vec<String> = self
+            .display
+            .iter()
+            .filter(|i| i.state == ItemState::Kept)
+            .flat_map(|i| i.cands.last().cloned().unwrap_or_default())
+            .collect();
+        let out = self.top.saturating_sub(self.transcript.len()).min(kept_rows.len());
+        self.frozen_rows += out;
+        self.transcript.extend(kept_rows[..out].iter().cloned());
         self.display.retain(|i| i.state != ItemState::Kept);
+        let p2 = ORACLE_P2;
+        let (w, h) = (self.w, self.h);
         let mut head = true;
+        let mut before = 0usize;
         for i in self.display.iter_mut() {
             if head && i.state == ItemState::Zombie && vanish {
-                i.state = ItemState::Vanishing;
+                let r: usize = self.last_lines[i.bar].iter().map(|l| wrap_rows(l, w).len()).sum();
+                if p2 && before > 0 && before + r > h {
+                    // behind the cut of this println frame: stays in the list (candidate patch P2)
+                    head = false;
+                } else {
+                    i.state = ItemState::Vanishing;
+                    before += r;
+                }
             } else if i.state != ItemState::Vanishing {
                 head = false;
             }
@@ -259,21 +319,234 @@ impl Oracle {
         }
     }
 
-    /// a painted draw of the MultiProgress reaps the zombies at the head of its list
-    fn reap_after_paint(&mut self) {
+    fn push_log(&mut self, lines: Vec<String>) {
+        self.transcript.extend(rows_of(&lines, self.w));
+        self.log.extend(lines);
+    }
+
+    /// a painted draw of the MultiProgress reaps the zombies at the head of its list; what stays on
+    /// the screen of each is what that draw painted of it (the frame may have been cut at the height)
+    fn reap_after_paint(&mut self) -> usize {
+        let w = self.w;
+        let mut reaped = 0usize;
+        // VERIF_ORACLE_P2=1: the implementation keeps a dropped bar that is behind the cut of a frame
+        // taller than the terminal in its list (candidate patch P2); otherwise reaping it is reported
+        let p2 = ORACLE_P2;
         let mut head = true;
-        for i in self.display.iter_mut() {
-            match i.state {
+        // rows of this frame painted in front of the item
+        let mut before = 0usize;
+        for idx in 0..self.display.len() {
+            let rows_of_item = |it: &Item, last_lines: &Vec<Vec<String>>| -> (Vec<String>, Vec<String>) {
+                let lines = &last_lines[it.bar];
+                let k = it.painted.unwrap_or(lines.len()).min(lines.len());
+                (
+                    lines[..k].iter().flat_map(|l| wrap_rows(l, w)).collect(),
+                    lines.iter().flat_map(|l| wrap_rows(l, w)).collect(),
+                )
+            };
+            match self.display[idx].state {
                 ItemState::Kept => {}
-                ItemState::Vanishing => {}
-                ItemState::Zombie if head => i.state = ItemState::Kept,
-                _ => head = false,
+                ItemState::Zombie if head => {
+                    let (cut, full) = rows_of_item(&self.display[idx], &self.last_lines);
+                    let it = &mut self.display[idx];
+                    if it.painted.is_some() {
+                        if before > 0 {
+                            if p2 {
+                                head = false;
+                                continue;
+                            }
+                            self.reap_cut = Some(format!(
+                                "finished bar #{} was taken off the list by a draw that painted only {:?} of its final frame {:?} (the frame was cut at the {} rows of the terminal): the rest is never shown",
+                                it.bar, cut, full, self.h
+                            ));
+                        }
+                        it.cands = vec![cut.clone()];
+                    }
+                    it.state = ItemState::Kept;
+                    reaped += 1;
+                    before += full.len();
+                }
+                _ => {
+                    if self.display[idx].state != ItemState::Vanishing || p2 {
+                        head = false;
+                    }
+                    let (_, full) = rows_of_item(&self.display[idx], &self.last_lines);
+                    before += full.len();
+                }
             }
         }
+        reaped
+    }
+
+    /// Drop(b) after its final draw: head bars become static text (what was painted of them), others
+    /// stay in the ordering until the bars before them are gone
+    fn finish_drop(&mut self, b: usize, painted: bool) -> bool {
+        let was_member = self.place[b] == Place::Member;
+        if painted && was_member {
+            // the final draw comes first, the dropped bar is marked afterwards
+            let _ = self.reap_after_paint();
+        }
+        let all_before_kept = {
+            let idx = self.display.iter().position(|i| i.bar == b && i.state == ItemState::Live);
+            idx.map_or(true, |k| {
+                self.display[..k]
+                    .iter()
+                    .all(|i| matches!(i.state, ItemState::Kept | ItemState::Vanishing))
+            })
+        };
+        if was_member && all_before_kept && self.wiped && !painted {
+            self.clear_then_drop = true;
+        }
+        let w = self.w;
+        let wiped_now = self.wiped;
+        let lines = self.last_lines[b].clone();
+        let mut released = false;
+        if let Some(it) = self.item_mut(b) {
+            let kept = !was_member || all_before_kept;
+            released = kept && was_member;
+            it.state = if kept { ItemState::Kept } else { ItemState::Zombie };
+            if kept {
+                if let Some(k) = it.painted {
+                    let k = k.min(lines.len());
+                    it.cands = vec![lines[..k].iter().flat_map(|l| wrap_rows(l, w)).collect()];
+                }
+                if was_member && wiped_now && !painted {
+                    // MultiProgress::clear wiped the region and nothing was drawn since: no row of
+                    // the bar is on the screen, so none stays (same as on a tall terminal, where the
+                    // empty rendering is among the candidates)
+                    it.cands = vec![vec![]];
+                }
+            }
+        }
+        self.place[b] = Place::None;
+        released
+    }
+
+    /// VERIF_ORACLE_P3=1 (candidate patch P3): a draw of the MultiProgress that releases finished bars
+    /// from a frame that was cut at the terminal height is repeated for the remaining bars, and so
+    /// is the release of the head bar by its drop.  Every frame (Flush) of the op is checked.
+    fn frames_p3(&mut self, op: &Op, chunks: &[Vec<TOp>], idx: &mut usize, mut text: bool) -> Option<Violation> {
+        loop {
+            let res = self.check_screen(op, false);
+            if res.is_some() {
+                return res;
+            }
+            let reaped = self.reap_after_paint();
+            // vanishing items of a println frame are gone with the repeated frame
+            let again = reaped > 0 && !text && self.last_cut && !self.ordering_positions().is_empty();
+            if !again {
+                return None;
+            }
+            if *idx >= chunks.len() {
+                return Some(Violation {
+                    class: "redraw-after-release-missing".into(),
+                    detail: format!("after {:?}: finished bars were released from a cut frame, the remaining bars were not drawn again", op),
+                });
+            }
+            let vt = &mut self.vt;
+            let c = &chunks[*idx];
+            if crate::catch(|| vt.feed(c)).is_err() {
+                self.vt_broken = true;
+                return None;
+            }
+            *idx += 1;
+            text = false;
+        }
+    }
+
+    fn step_frames_p3(&mut self, op: &Op, o: &StepObs, must_paint: Option<&'static str>, painted: bool) -> Option<Violation> {
+        let mut chunks: Vec<Vec<TOp>> = vec![vec![]];
+        for t in &o.emitted {
+            chunks.last_mut().unwrap().push(t.clone());
+            if *t == TOp::Flush {
+                chunks.push(vec![]);
+            }
+        }
+        if chunks.last().map_or(false, |c| c.is_empty()) {
+            chunks.pop();
+        }
+        self.all_ops.extend(o.emitted.iter().cloned());
+        if let Some(what) = must_paint {
+            if !painted {
+                return Some(Violation {
+                    class: "forced-draw-not-painted".into(),
+                    detail: format!("{what} ({:?}) did not paint a frame", op),
+                });
+            }
+        }
+        let drop_bar = if let Op::Drop(b) = op { Some(*b) } else { None };
+        let own_draw = if drop_bar.is_some() { must_paint.is_some() } else { painted };
+        // suspend: the first frame is the clear
+        let pre = if matches!(op, Op::Suspend(..) | Op::MSuspend(_)) { 1 } else { 0 };
+        let mut idx = 0usize;
+        let mut res = None;
+        if own_draw {
+            while idx <= pre && idx < chunks.len() {
+                let vt = &mut self.vt;
+                let c = &chunks[idx];
+                if crate::catch(|| vt.feed(c)).is_err() {
+                    self.vt_broken = true;
+                    return None;
+                }
+                idx += 1;
+            }
+            self.wiped = matches!(op, Op::MClear);
+            if matches!(op, Op::MClear) {
+                res = self.check_screen(op, true);
+            } else {
+                let text = matches!(op, Op::Println(..) | Op::MPrintln(_));
+                res = self.frames_p3(op, &chunks, &mut idx, text);
+            }
+        }
+        if let (Some(b), true) = (drop_bar, res.is_none()) {
+            self.pending_drop = None;
+            let cut_before = self.last_cut;
+            let released = self.finish_drop(b, false);
+            if released && cut_before && !self.ordering_positions().is_empty() {
+                if idx >= chunks.len() {
+                    return Some(Violation {
+                        class: "redraw-after-release-missing".into(),
+                        detail: format!("after {:?}: the head bar was released from a cut frame, the remaining bars were not drawn again", op),
+                    });
+                }
+                let vt = &mut self.vt;
+                let c = &chunks[idx];
+                if crate::catch(|| vt.feed(c)).is_err() {
+                    self.vt_broken = true;
+                    return None;
+                }
+                idx += 1;
+                res = self.frames_p3(op, &chunks, &mut idx, false);
+            }
+        }
+        if res.is_none() && idx < chunks.len() && !self.vt_broken {
+            return Some(Violation {
+                class: "unexpected-extra-frame".into(),
+                detail: format!("after {:?}: {} frames were painted, {} expected", op, chunks.len(), idx),
+            });
+        }
+        res
     }
 
     /// Processes one executed op. Returns a violation if the property fails at this step.
     pub fn step(&mut self, op: &Op, o: &StepObs) -> Option<Violation> {
+        let r = self.step_inner(op, o);
+        if let Some((b, painted)) = self.pending_drop.take() {
+            let _ = self.finish_drop(b, painted);
+        }
+        let cut = self.reap_cut.take();
+        if r.is_none() {
+            if let Some(d) = cut {
+                return Some(Violation {
+                    class: "finished-bar-reaped-behind-the-cut".into(),
+                    detail: format!("after {:?}: {d}", op),
+                });
+            }
+        }
+        r
+    }
+
+    fn step_inner(&mut self, op: &Op, o: &StepObs) -> Option<Violation> {
         if let Some(p) = &o.panic {
             return Some(Violation {
                 class: "panic".into(),
@@ -292,47 +565,54 @@ impl Oracle {
             Op::SetStyle(b, t) => self.tmpl[*b] = t.clone(),
             Op::Println(b, m) => {
                 if self.visible(*b) {
-                    let ls: Vec<&str> = m.lines().collect();
-                    if ls.is_empty() {
-                        self.log.push(String::new())
-                    } else {
-                        self.log.extend(ls.iter().map(|s| s.to_string()))
-                    }
                     if self.place[*b] == Place::Member {
                         self.intervene(true);
                         mp_level_paint = true;
+                    }
+                    let ls: Vec<&str> = m.lines().collect();
+                    if ls.is_empty() {
+                        self.push_log(vec![String::new()])
+                    } else {
+                        self.push_log(ls.iter().map(|s| s.to_string()).collect())
                     }
                     must_paint = Some("println");
                 }
             }
             Op::MPrintln(m) => {
                 if self.mp_visible {
-                    if m.is_empty() {
-                        self.log.push(String::new())
-                    } else {
-                        self.log.extend(m.lines().map(|s| s.to_string()))
-                    }
                     self.intervene(true);
+                    if m.is_empty() {
+                        self.push_log(vec![String::new()])
+                    } else {
+                        self.push_log(m.lines().map(|s| s.to_string()).collect())
+                    }
                     mp_level_paint = true;
                     must_paint = Some("mp.println");
                 }
             }
             Op::Suspend(b, ws) => {
-                self.log.extend(ws.iter().cloned());
                 if self.place[*b] == Place::Member && self.mp_visible {
                     self.intervene(false);
                     mp_level_paint = true;
+                }
+                self.push_log(ws.clone());
+                if !ws.is_empty() {
+                    // every line the closure writes ends with a line feed
+                    self.top = self.top.max((self.transcript.len() + 1).saturating_sub(self.h));
                 }
                 if self.visible(*b) {
                     must_paint = Some("suspend");
                 }
             }
             Op::MSuspend(ws) => {
-                self.log.extend(ws.iter().cloned());
                 if self.mp_visible {
                     self.intervene(false);
                     mp_level_paint = true;
                     must_paint = Some("mp.suspend");
+                }
+                self.push_log(ws.clone());
+                if !ws.is_empty() {
+                    self.top = self.top.max((self.transcript.len() + 1).saturating_sub(self.h));
                 }
             }
             Op::MClear => {
@@ -423,6 +703,7 @@ impl Oracle {
                         state: ItemState::Live,
                         cands: vec![vec![]], // not drawn yet: shows nothing
                         optional: false,
+                        painted: None,
                     },
                 );
                 self.place[*b] = Place::Member;
@@ -457,6 +738,9 @@ impl Oracle {
                 }
             }
             drop_final = Some((*b, g));
+            if self.place[*b] == Place::Member && !self.hidden_status[*b] {
+                self.d22_kept_candidate = true;
+            }
         }
         for (b, g) in o.getters.iter().enumerate() {
             if let Some(g) = g {
@@ -491,22 +775,7 @@ impl Oracle {
                 }
             }
             if let Op::Drop(_) = op {
-                if painted {
-                    // the final draw comes first, the dropped bar is marked afterwards
-                    self.reap_after_paint();
-                }
                 let was_member = self.place[b] == Place::Member;
-                let all_before_kept = {
-                    let idx = self.display.iter().position(|i| i.bar == b && i.state == ItemState::Live);
-                    idx.map_or(true, |k| {
-                        self.display[..k]
-                            .iter()
-                            .all(|i| matches!(i.state, ItemState::Kept | ItemState::Vanishing))
-                    })
-                };
-                if was_member && all_before_kept && self.wiped && !painted {
-                    self.clear_then_drop = true;
-                }
                 {
                     let rows: usize = self
                         .display
@@ -518,14 +787,8 @@ impl Oracle {
                         self.oversized_reap = true;
                     }
                 }
-                if let Some(it) = self.item_mut(b) {
-                    if was_member {
-                        it.state = if all_before_kept { ItemState::Kept } else { ItemState::Zombie };
-                    } else {
-                        it.state = ItemState::Kept;
-                    }
-                }
-                self.place[b] = Place::None;
+                // the state change of the dropped bar follows the check of its final draw (`step`)
+                self.pending_drop = Some((b, painted));
             }
         }
         if matches!(op, Op::MClear) && self.mp_visible {
@@ -543,12 +806,58 @@ impl Oracle {
         if self.vt_broken {
             return None;
         }
+        if ORACLE_P3 && self.mp_visible {
+            let mp_paint = mp_level_paint
+                || op.bar().map_or(true, |b| {
+                    self.place[b] == Place::Member || matches!(op, Op::Insert(..))
+                });
+            if mp_paint && (painted || matches!(op, Op::Drop(_))) {
+                return self.step_frames_p3(op, o, must_paint, painted);
+            }
+        }
+        self.cut_damage_now = false;
+        if self.cut_mid_row {
+            for x in &o.emitted {
+                match x {
+                    TOp::Clear => {
+                        self.cut_mid_row = false;
+                        break;
+                    }
+                    TOp::Str(t) | TOp::Line(t) if !t.is_empty() => {
+                        self.cut_damage_now = true;
+                        break;
+                    }
+                    TOp::Line(_) => {
+                        self.cut_mid_row = false; // an empty write_line moves to a fresh row
+                        break;
+                    }
+                    _ => {}
+                }
+            }
+        }
+        if self.bottom_ever
+            && painted
+            && o.emitted.iter().enumerate().any(|(i, x)| {
+                matches!(x, TOp::Line(l) if l.is_empty()) && (i == 0 || !matches!(o.emitted[i - 1], TOp::Str(_)))
+            })
+        {
+            self.d22_padded = true;
+        }
         let vt = &mut self.vt;
         if crate::catch(|| vt.feed(&o.emitted)).is_err() {
             self.vt_broken = true;
             return None;
         }
         self.all_ops.extend(o.emitted.iter().cloned());
+        if painted {
+            let (_, c) = self.vt.cursor();
+            let tall: usize = self
+                .display
+                .iter()
+                .map(|i| i.cands.iter().map(|c| c.len()).max().unwrap_or(0))
+                .sum();
+            self.cut_mid_row = c > 0 && c < self.w && tall > self.h;
+        }
         if let Some(what) = must_paint {
             if !painted {
                 return Some(Violation {
@@ -588,21 +897,23 @@ impl Oracle {
         }
         let res = self.check_screen(op, matches!(op, Op::MClear));
         if is_mp_paint && !matches!(op, Op::MClear | Op::Drop(_)) {
-            self.reap_after_paint();
+            let _ = self.reap_after_paint();
         }
         res
     }
 
     /// the narrow, history-determined classes of the recorded open findings; `default` otherwise
     fn classify(&self, default: &'static str) -> &'static str {
-        if self.bottom_ever {
-            "bottom-alignment-shrunken-frame"
+        if self.cut_damage_now {
+            // open finding D14
+            "height-cut-leaves-cursor-mid-row"
+        } else if self.bottom_ever && self.d22_padded && self.d22_kept_candidate && !default.starts_with("log-") {
+            // open finding D22 (C04)
+            "bottom-alignment-kept-rows-misplaced"
         } else if self.clear_then_drop {
             "finished-bar-dropped-after-clear"
         } else if self.oversized_reap {
             "finished-bar-dropped-while-frame-taller-than-terminal"
-        } else if self.text_without_bar {
-            "text-drawn-while-no-bar-line-fits"
         } else if self.kept_out_of_reach {
             "kept-rows-out-of-reach"
         } else if self.empty_region_intervention {
@@ -617,7 +928,7 @@ impl Oracle {
         let log_rows = rows_of(&self.log, self.w);
         self.checks += 1;
         // 1. the log (C03): every printed line is on the screen exactly once, in order
-        let n = log_rows.len();
+        let _n = log_rows.len();
         {
             let mut p = 0;
             let mut ok = true;
@@ -643,6 +954,10 @@ impl Oracle {
                 });
             }
         }
+        // the static rows: the log, and rows of finished bars that were out of reach when they were
+        // to be erased, in physical order
+        let log_rows = self.transcript.clone();
+        let n = log_rows.len();
         let mut trimmed_log = log_rows.clone();
         while trimmed_log.last().map_or(false, |r| r.is_empty()) {
             trimmed_log.pop();
@@ -687,6 +1002,7 @@ impl Oracle {
         if live_rows > self.h {
             self.unfit = true;
             if after_clear {
+                self.last_cut = false;
                 return if region.iter().all(|r| r.is_empty()) {
                     None
                 } else {
@@ -699,23 +1015,28 @@ impl Oracle {
             // C19: lines are painted in order while the accumulated rows of bar lines fit the height
             let mut want: Vec<String> = vec![];
             let mut used = 0usize;
-            'outer: for it in &self.display {
-                let lines: Vec<Vec<String>> = if it.state == ItemState::Kept {
+            let mut cut = false;
+            for it in self.display.iter_mut() {
+                if it.state == ItemState::Kept {
                     // static text: not limited by the height
-                    vec![it.cands.last().cloned().unwrap_or_default()]
-                } else {
-                    self.last_lines[it.bar].iter().map(|l| wrap_rows(l, self.w)).collect()
-                };
-                for l in lines {
-                    if it.state != ItemState::Kept {
-                        if used + l.len() > self.h {
-                            break 'outer;
-                        }
-                        used += l.len();
-                    }
-                    want.extend(l);
+                    want.extend(it.cands.last().cloned().unwrap_or_default());
+                    continue;
                 }
+                let lines: Vec<Vec<String>> = self.last_lines[it.bar].iter().map(|l| wrap_rows(l, self.w)).collect();
+                let mut k = 0;
+                for l in &lines {
+                    if cut || used + l.len() > self.h {
+                        cut = true;
+                        break;
+                    }
+                    used += l.len();
+                    want.extend(l.iter().cloned());
+                    k += 1;
+                }
+                it.painted = if k == lines.len() { None } else { Some(k) };
             }
+            self.top = self.top.max((n + want.len()).saturating_sub(self.h));
+            self.last_cut = cut;
             let mut g = region.clone();
             while g.last().map_or(false, |r| r.is_empty()) {
                 g.pop();
@@ -746,6 +1067,18 @@ impl Oracle {
         };
         match match_region(&region, &items, 0, 0, self.bottom_ever) {
             Some(choice) => {
+                if !after_clear {
+                    let rows: usize = choice
+                        .iter()
+                        .zip(self.display.iter())
+                        .map(|(c, it)| c.map_or(0, |c| it.cands[c].len()))
+                        .sum();
+                    self.top = self.top.max((n + rows).saturating_sub(self.h));
+                }
+                for it in self.display.iter_mut() {
+                    it.painted = None;
+                }
+                self.last_cut = false;
                 // narrow the windows: what was seen becomes the oldest admissible state;
                 // optional items that were not shown are gone for good
                 let mut k = 0;
@@ -795,6 +1128,34 @@ impl Oracle {
                 })
             }
         }
+    }
+
+    /// dropped bars that are still waiting in the list at the end of the history because the last
+    /// painted frame was cut in front of (or inside) them: nothing will ever draw them
+    pub fn dropped_never_painted(&self) -> Vec<usize> {
+        // what a draw of the present list would paint
+        let mut out = vec![];
+        let mut used = 0usize;
+        let mut cut = false;
+        for it in &self.display {
+            if it.state == ItemState::Kept {
+                continue;
+            }
+            let mut all = true;
+            for l in &self.last_lines[it.bar] {
+                let r = wrap_rows(l, self.w).len();
+                if cut || used + r > self.h {
+                    cut = true;
+                    all = false;
+                    break;
+                }
+                used += r;
+            }
+            if all && it.state == ItemState::Zombie && it.painted.is_some() {
+                out.push(it.bar);
+            }
+        }
+        out
     }
 
     /// at the end: ordinary output starts on a fresh line below everything (C01)
@@ -896,6 +1257,7 @@ pub fn run_sys_cases(s: &mut crate::Session, cases: &[Case], nontrivial: &dyn Fn
             bad = or.final_cursor_check();
         }
         checks += or.checks;
+        let bad_is_none = bad.is_none();
         if let Some(v) = bad {
             s.fail(&v.class, v.detail, desc.clone());
         }
@@ -907,6 +1269,12 @@ pub fn run_sys_cases(s: &mut crate::Session, cases: &[Case], nontrivial: &dyn Fn
         s.count(&format!("bars:{}", case.bars.len()));
         if or.unfit {
             s.count("cases_with_frames_taller_than_terminal");
+        }
+        if bad_is_none && !or.dropped_never_painted().is_empty() {
+            s.count("passing_cases_ending_with_dropped_bars_behind_the_cut_never_painted");
+            if std::env::var("VERIF_SHOW_PENDING").is_ok() {
+                println!("PENDING {:?} {}", or.dropped_never_painted(), desc);
+            }
         }
         if or.vt_broken {
             s.count("cases_without_reference_screen(vt100 crate overflow on 1-row terminal)");
